@@ -86,7 +86,7 @@ func show(m protoreflect.Message, fd protoreflect.FieldDescriptor) string {
 	if !m.Has(fd) {
 		return "unset"
 	}
-	s := fmt.Sprint(m.Get(fd).Interface())
+	s := m.Get(fd).String()
 	if len(s) > 120 {
 		s = s[:120] + "…"
 	}
